@@ -8,6 +8,12 @@
   * an address is `(hrp, acct)`: bech32 prefix id and account-bytes id.  hrp 0 is the host prefix.
     bech32/hex/EIP-55 text conversion and the 0x / "extra format" resolution paths are not modelled.
   * one price denom; amounts are `Nat` (`math.Int`, never negative here).
+  * `hostLit` (999) is not the id of any text: it marks a stored config whose chain-id is the host
+    chain-id written out literally (only the chain-id migration can store that; a message stores the
+    host chain as the empty chain-id = chain 0).  Op arguments, handles and working chains range over
+    text ids (0 = the host chain-id text), never over `hostLit`.
+  * the texts of chain-ids and aliases are ordered (`UpdateAliases` sorts them): `chainKey` /
+    `aliasKey` mirror the order of the harness encoders' texts.
   * reverse-lookup lists are kept in insertion order and never re-sorted (the Go code sorts after a
     removal); every observation of them is canonicalised by sorting.
 -/
@@ -896,6 +902,137 @@ def acceptBO (s : State) (a : Acct) (pfxAlias : Bool) (id : Nat) (minAccept : Na
   | none => .error .notfound
   | some bo => if bo.isAlias then acceptAliasBO s a id bo minAccept else acceptNameBO s a id bo minAccept
 
+/-! ## x/rollapp `MsgTransferOwnership` (x/dymns reads `rollapp.Owner` through `IsRollAppCreator`) -/
+
+/-- `MsgTransferOwnership` of x/rollapp as far as x/dymns is concerned: only the owner field of the
+    RollApp record changes (no dymns hook runs) -/
+def transferRollapp (s : State) (a : Acct) (c : Chain) (b : Acct) : M State :=
+  match AMap.get s.al.rollapps c with
+  | none => .error .notfound
+  | some r => do
+    chk (decide (r.owner = a)) .denied
+    chk (decide (r.owner ≠ b)) .invalid
+    let al := s.al
+    pure { s with al := { al with rollapps := AMap.set al.rollapps c { r with owner := b } } }
+
+/-! ## governance (x/dymns/keeper/proposal.go, msg_server_update_params.go) -/
+
+/-- the stored chain-id of a config that carries the host chain-id text literally (see the header) -/
+def hostLit : Chain := 999
+
+/-- the chain-id text a stored config stands for: the host chain-id for the empty text and for the literal -/
+def cfgText (c : Chain) : Chain := if c = hostLit then 0 else c
+
+/-- a chain-id text written into a config as it is (no normalisation of the host chain-id) -/
+def litChain (c : Chain) : Chain := if c = 0 then hostLit else c
+
+/-- the identity `DymNameConfig.GetIdentity` compares (one config type) -/
+def cid (c : Config) : Chain × Path := (c.chain, c.path)
+
+/-- one config through the loop of `migrateChainIdsInDymNames`: an empty chain-id is skipped -/
+def migConfig (m : List (Chain × Chain)) (c : Config) : Config :=
+  if c.chain = 0 then c
+  else
+    match AMap.get m (cfgText c.chain) with
+    | some new => { c with chain := litChain new }
+    | none => c
+
+/-- one Dym-Name through `migrateChainIdsInDymNames`: expired names are not loaded; a record none of
+    whose chain-ids is replaced, or whose rewritten form fails `DymName.Validate` (two configs with the
+    same identity), is left as it is; otherwise it is stored with `SetDymName` — no Before/After
+    config hook runs -/
+def migName (now : Nat) (m : List (Chain × Chain)) (d : DymName) : DymName :=
+  if d.expired now then d
+  else if ((d.configs.map (migConfig m)).map cid).Nodup then { d with configs := d.configs.map (migConfig m) }
+  else d
+
+/-- `migrateChainIdsInParams`: a record of a replaced chain-id moves to the new chain-id, unless the
+    new chain-id already has a record (then the old record is dropped) -/
+def migrateCA (ca : List (Chain × List AliasId)) (m : List (Chain × Chain)) : List (Chain × List AliasId) :=
+  ca.filterMap (fun r =>
+    match AMap.get m r.1 with
+    | some new => if ca.any (fun r' => r'.1 = new) then none else some (new, r.2)
+    | none => some r)
+
+/-- `validateAliasesOfChainIds` (texts are well formed: A-norm): chain-ids and aliases unique among all -/
+def caValid (ca : List (Chain × List AliasId)) : Bool :=
+  decide ((ca.map (·.1)).Nodup) && decide ((ca.flatMap (·.2)).Nodup)
+
+/-- `MigrateChainIdsProposal.ValidateBasic` -/
+def migValid (m : List (Chain × Chain)) : Bool :=
+  !m.isEmpty && decide ((m.flatMap (fun r => [r.1, r.2])).Nodup)
+
+/-- `MigrateChainIdsProposal` (handler + `Keeper.MigrateChainIds`) -/
+def migrateChainIds (s : State) (m : List (Chain × Chain)) : M State := do
+  chk (migValid m) .invalid
+  let ca := migrateCA s.p.chainAliases m
+  chk (caValid ca) .invalid
+  let q := s.p
+  let ns := s.ns
+  pure { s with p := { q with chainAliases := ca },
+                ns := { ns with names := ns.names.map (fun e => (e.1, migName s.now m e.2)) } }
+
+/-- order of the chain-id texts of the harness encoders: cosmoshub-4 (100) < dymension_100-1 (0) <
+    injective-1 (102) < juno-1 (103) < osmosis-1 (101) < rol<letter>_… (RollApps 1, 2, …) -/
+def chainKey (c : Chain) : Nat :=
+  if c = 100 then 0 else if c = 0 then 1 else if c = 102 then 2 else if c = 103 then 3 else if c = 101 then 4 else 5 + c
+
+/-- order of the alias texts of the harness encoders: cosmos (1001) < dym (1000) < inj (1002) <
+    jun (1003) < k…k<letter> (`l % 5 + 1` times k, then letter `l / 5`; letters before k: l < 50) -/
+def aliasKey (l : AliasId) : Nat :=
+  if l = 1001 then 0 else if l = 1000 then 1 else if l = 1002 then 2 else if l = 1003 then 3 else 4 + (l % 5) * 1000 + l / 5
+
+def insByKey {α : Type} (key : α → Nat) (x : α) : List α → List α
+  | [] => [x]
+  | y :: ys => if key x < key y then x :: y :: ys else y :: insByKey key x ys
+
+/-- `GetSortedStringKeys` -/
+def sortByKey {α : Type} (key : α → Nat) (l : List α) : List α := l.foldr (insByKey key) []
+
+/-- the `add` loop of `UpdateAliases` -/
+def uaAdd (m : AMap Chain (List AliasId)) : List (Chain × AliasId) → M (AMap Chain (List AliasId))
+  | [] => pure m
+  | (c, l) :: rest =>
+    let ex := (AMap.get m c).getD []
+    if l ∈ ex then .error .exists_ else uaAdd (AMap.set m c (ex ++ [l])) rest
+
+/-- the `remove` loop of `UpdateAliases` -/
+def uaRemove (m : AMap Chain (List AliasId)) : List (Chain × AliasId) → M (AMap Chain (List AliasId))
+  | [] => pure m
+  | (c, l) :: rest =>
+    match AMap.get m c with
+    | none => .error .notfound
+    | some ex =>
+      if l ∈ ex then
+        let ex' := ex.filter (· ≠ l)
+        uaRemove (if ex' = [] then AMap.del m c else AMap.set m c ex') rest
+      else .error .notfound
+
+/-- `UpdateAliasesProposal` (handler + `Keeper.UpdateAliases`) -/
+def updateAliases (s : State) (add remove : List (Chain × AliasId)) : M State := do
+  chk (!(add ++ remove).isEmpty && decide ((add ++ remove).Nodup)) .invalid
+  let m0 : AMap Chain (List AliasId) := s.p.chainAliases.foldl (fun m r => AMap.set m r.1 r.2.eraseDups) []
+  let m1 ← uaAdd m0 add
+  let m2 ← uaRemove m1 remove
+  let ca := (sortByKey (fun e => chainKey e.1) m2).map (fun e => (e.1, sortByKey aliasKey e.2))
+  chk (caValid ca) .invalid
+  let q := s.p
+  pure { s with p := { q with chainAliases := ca } }
+
+/-- `MinPriceValue` -/
+def minPriceValue : Nat := 10 ^ 18
+
+/-- `MsgUpdateParams` carrying new price params (same denom and price steps, new minimum offer and
+    bid increment) and new misc params (same switches, new grace period and sell-order duration), with
+    `validatePriceParams` / `validateMiscParams` on the changed fields -/
+def setParams (s : State) (grace soDur minOffer bidInc : Nat) : M State := do
+  chk (decide (minPriceValue ≤ minOffer)) .invalid
+  chk (decide (bidInc ≤ 10)) .invalid
+  chk (decide (30 * 86400 ≤ grace)) .invalid
+  chk (decide (1 ≤ soDur ∧ soDur ≤ 7 * 86400)) .invalid
+  let q := s.p
+  pure { s with p := { q with grace := grace, soDur := soDur, minOffer := minOffer, bidInc := bidInc } }
+
 /-! ## operations -/
 
 inductive Op
@@ -922,6 +1059,10 @@ inductive Op
   | completeAlias (a : Acct) (l : AliasId)
   | buyAlias (a : Acct) (l : AliasId) (offer : Nat) (dst : Chain)
   | offerAlias (a : Acct) (l : AliasId) (offer : Nat) (cont : Option (Bool × Nat)) (dst : Chain)
+  | transferRollapp (a : Acct) (c : Chain) (b : Acct)
+  | migrateChainIds (m : List (Chain × Chain))
+  | updateAliases (add remove : List (Chain × AliasId))
+  | setParams (grace soDur minOffer bidInc : Nat)
   deriving Repr
 
 /-- one operation; an error leaves the state untouched (baseapp's per-message cache context) -/
@@ -953,6 +1094,10 @@ def exec (s : State) : Op → M State
   | .completeAlias a l => completeAliasSOMsg s a l
   | .buyAlias a l o d => purchaseAlias s a l o d
   | .offerAlias a l o c d => placeAliasBO s a l o c d
+  | .transferRollapp a c b => transferRollapp s a c b
+  | .migrateChainIds m => migrateChainIds s m
+  | .updateAliases ad rm => updateAliases s ad rm
+  | .setParams g d mo bi => setParams s g d mo bi
 
 def step (s : State) (op : Op) : State :=
   match exec s op with
@@ -1040,10 +1185,11 @@ def liveNames (s : State) (ns : List Name) : List (Name × DymName) :=
   ns.filterMap (fun n => (getNameLive s n).map (fun d => (n, d)))
 
 /-- `reverseResolveDymNameAddressUsingConfiguredAddress`: (path, name) pairs whose record on the
-    working chain has the queried value -/
+    working chain has the queried value (`AppendConfigs` prints the empty chain-id as the host
+    chain-id, so a record stored under the literal host chain-id matches the host chain as well) -/
 def revByConfig (s : State) (addr : Addr) (wc : Chain) : List (Path × Name) :=
   (liveNames s (s.ns.cfgIdx.lookup addr)).flatMap (fun (n, d) =>
-    (d.revConfigs.filter (fun c => c.value = addr ∧ c.chain = wc)).map (fun c => (c.path, n)))
+    (d.revConfigs.filter (fun c => c.value = addr ∧ cfgText c.chain = wc)).map (fun c => (c.path, n)))
 
 /-- `fallbackReverseResolveDymNameAddress`: names whose default record has the queried account bytes -/
 def revByFallback (s : State) (addr : Addr) : List (Path × Name) :=
